@@ -24,7 +24,7 @@ from symx.values import zreal
 INF = float("inf")
 BOUNDS = {
     "quick": "round trip: one parameter, value/min/max symbolic or infinite, both flags; vectors: 4 parameters with every "
-    "mix of free / fixed / expression / non-negative / bounded flags in 6 arrangements; optimiser: 3 schemes x 2-3 iterates "
+    "mix of free / fixed / expression / non-negative / bounded flags in 7 arrangements, each followed by in-place flag changes (fix / release / assign expression); optimiser: 3 schemes x 2-3 iterates "
     "anywhere inside the bounds handed to least_squares",
     "thorough": "all 4-parameter flag arrangements, 4 iterates",
 }
